@@ -27,7 +27,20 @@ def opFemAniso : P String := do
   let vtx := vtxOf v
   return s!"ok {outCoo (Fem.stiffTriaAniso vtx t us.toList)} {outCoo (Fem.massTria lump vtx t)}"
 
+def pCur (n : Nat) : P (List (V3 Float × V3 Float × Float × Float)) := do
+  let us ← pMany n (do
+    let u1 ← pV3; let u2 ← pV3; let c1 ← pFloat; let c2 ← pFloat
+    pure (u1, u2, c1, c2))
+  return us.toList
+
+/-- `solver_aniso lump verts tris a0 a1 nt×(u1 u2 c1 c2)` : `Solver(tria, lump, aniso=(a0,a1))` from the curvature output -/
+def opSolverAniso : P String := do
+  let lump ← pBool; let v ← pVerts; let t ← pTris; let a0 ← pFloat; let a1 ← pFloat
+  let cur ← pCur t.length
+  let (a, b) := Fem.solverAniso lump (vtxOf v) t a0 a1 cur
+  return s!"ok {outCoo a} {outCoo b}"
+
 def femOps : List (String × P String) :=
-  [("fem_tria", opFemTria), ("fem_tet", opFemTet), ("mass_tria", opMassTria), ("fem_aniso", opFemAniso)]
+  [("fem_tria", opFemTria), ("fem_tet", opFemTet), ("mass_tria", opMassTria), ("fem_aniso", opFemAniso), ("solver_aniso", opSolverAniso)]
 
 end LapyVerif.Driver
